@@ -1681,7 +1681,7 @@ def check_scheme_tests_ignore_case(ctx, f, rule="R-SIB"):
             ctx.ob(rule, "%s:scheme-test-ignores-case[%s]" % (short(root_fn_name(f, name)), a[-1].strip("b'")), ok,
                    "%s recognises the scheme %s case-insensitively" % (short(root_fn_name(f, name)), a[-1]), where=c.where(),
                    detail={"call": short(c.res or c.name), "receiver": recv})
-    ctx.floor(rule, "scheme literal comparisons", n, 4)
+    ctx.floor(rule, "scheme literal comparisons", n, 2)      # (two in the URI types, two in the RFC 8183 service URI; a prefix table leaves the latter)
 
 
 def check_base64_engines(ctx, f, rule="R-SIB"):
